@@ -1,5 +1,5 @@
 import Verif.Common.Proto
-import Verif.C12.Model
+import Verif.C12.Pipeline
 /-
 Line protocol of the C12 model driver.
 
@@ -7,6 +7,19 @@ Line protocol of the C12 model driver.
                               diag := file off line col efile eoff eline ecol cat msg sev mergeif build
   (strings hex-encoded, `-` = empty).  Every run is a lintResult and goes through
   `runFromLintResult`.  Output: `<n> entry*`, entry := the 10 descriptor tokens, <k>, k names.
+
+  pipe <reg> <nruns> prun*    reg  := <n> (cat mergeif)*          (analyzer name, Doc.MergeIf)
+                              prun := <mode> cwd name <ncf> cf* <nd> rawdiag*
+                              rawdiag := file off line col efile eoff eline ecol cat msg sev src
+    mode 0: the run is merged in-process (-matrix); mode 1: it went through `-f binary`
+    (binOut) first.  src 1: a U1000 problem created by linter.lint itself.  Output as `merge`.
+  binout <reg> prun           the lintResult `-f binary` writes: <ncf> cf* <nd> diag*
+  parsecfg stdin              parseBuildConfigs: `ok <n> (name <ne> env* <nf> flag*)*` or
+                              `err <line> <kind>`; `outside` for non-ASCII input
+  matrix <reg> stdin <nt> (<ne> env* <nf> flag* <ncf> cf* <nd> rawdiag*)*
+                              -matrix: parse stdin, look the result of each configuration up
+                              by (envs, flags) in the table, merge; `err <line> <kind>` on a
+                              parse error, `bad-op` when a configuration is not in the table
 Anything malformed (wrong counts, trailing tokens, bad numbers) gives `bad-op`.
 -/
 namespace Verif.C12
@@ -71,17 +84,175 @@ def showDesc (k : Desc) : String :=
 def showEntry (e : Desc × List String) : String :=
   " ".intercalate (showDesc e.1 :: toString e.2.length :: e.2.map hexEncode)
 
+def showOut (out : List (Desc × List String)) : String :=
+  " ".intercalate (toString out.length :: out.map showEntry)
+
+def parseReg : List String → Option (Registry × List String)
+  | n :: ts => do
+    let n ← parseNat n
+    let rec go : Nat → List String → Option (Registry × List String)
+      | 0, ts => some ([], ts)
+      | k + 1, c :: m :: ts => do
+        let c ← hexDecode c
+        let m ← parseInt m
+        let (r, rest) ← go k ts
+        pure ((c, m) :: r, rest)
+      | _ + 1, _ => none
+    go n ts
+  | [] => none
+
+def parseRawDiag : List String → Option (RawDiag × List String)
+  | f :: off :: ln :: col :: ef :: eoff :: eln :: ecol :: cat :: msg :: sev :: src :: rest => do
+    let f ← hexDecode f
+    let off ← parseInt off
+    let ln ← parseInt ln
+    let col ← parseInt col
+    let ef ← hexDecode ef
+    let eoff ← parseInt eoff
+    let eln ← parseInt eln
+    let ecol ← parseInt ecol
+    let cat ← hexDecode cat
+    let msg ← hexDecode msg
+    let sev ← parseNat sev
+    let src ← parseBool src
+    pure ({ desc := { pos := ⟨f, off, ln, col⟩, end_ := ⟨ef, eoff, eln, ecol⟩, cat := cat, msg := msg },
+            sev := sev, fromUnused := src }, rest)
+  | _ => none
+
+def parseRawDiags : Nat → List String → Option (List RawDiag × List String)
+  | 0, ts => some ([], ts)
+  | n + 1, ts => do
+    let (d, rest) ← parseRawDiag ts
+    let (r, rest) ← parseRawDiags n rest
+    pure (d :: r, rest)
+
+def parseRawRes : List String → Option (RawResult × List String)
+  | ncf :: ts => do
+    let ncf ← parseNat ncf
+    let (cfs, rest) ← parseStrs ncf ts
+    match rest with
+    | nd :: rest => do
+      let nd ← parseNat nd
+      let (ds, rest) ← parseRawDiags nd rest
+      pure ({ checked := cfs, diags := ds }, rest)
+    | [] => none
+  | [] => none
+
+/-- mode, cwd, name, raw result -/
+def parsePRun : List String → Option ((Bool × String × String × RawResult) × List String)
+  | mode :: cwd :: name :: ts => do
+    let mode ← parseBool mode
+    let cwd ← hexDecode cwd
+    let name ← hexDecode name
+    let (raw, rest) ← parseRawRes ts
+    pure ((mode, cwd, name, raw), rest)
+  | _ => none
+
+def parsePRuns : Nat → List String → Option (List (Bool × String × String × RawResult) × List String)
+  | 0, ts => some ([], ts)
+  | n + 1, ts => do
+    let (r, rest) ← parsePRun ts
+    let (rs, rest) ← parsePRuns n rest
+    pure (r :: rs, rest)
+
+def pRunToRun (reg : Registry) (p : Bool × String × String × RawResult) : Run :=
+  let (mode, cwd, name, raw) := p
+  if mode then binaryRun reg cwd name raw else runFromLintResult (lintRun reg name raw)
+
+def showDiag (d : Diag) : String :=
+  s!"{showDesc d.desc} {d.sev} {d.mergeIf} {hexEncode d.build}"
+
+def showLintResult (r : LintResult) : String :=
+  " ".intercalate (toString r.checked.length :: r.checked.map hexEncode ++
+    toString r.diags.length :: r.diags.map showDiag)
+
+def showErrKind : ParseErr → String
+  | .empty => "empty"
+  | .missingName => "missing-name"
+  | .unterminated => "unterminated"
+  | .invalidName => "invalid-name"
+
+def showStrs (l : List String) : String :=
+  " ".intercalate (toString l.length :: l.map hexEncode)
+
+def showCfg (c : BuildConfig) : String :=
+  s!"{hexEncode c.name} {showStrs c.envs} {showStrs c.flags}"
+
+def isAscii (s : String) : Bool := s.toList.all fun c => c.toNat < 128
+
+/-- table of results keyed by (envs, flags) -/
+def parseTable : Nat → List String → Option (List ((List String × List String) × RawResult) × List String)
+  | 0, ts => some ([], ts)
+  | n + 1, ne :: ts => do
+    let ne ← parseNat ne
+    let (envs, rest) ← parseStrs ne ts
+    match rest with
+    | nf :: rest => do
+      let nf ← parseNat nf
+      let (flags, rest) ← parseStrs nf rest
+      let (raw, rest) ← parseRawRes rest
+      let (t, rest) ← parseTable n rest
+      pure (((envs, flags), raw) :: t, rest)
+    | [] => none
+  | _ + 1, [] => none
+
+def stepMatrix (reg : Registry) (stdin : String)
+    (tab : List ((List String × List String) × RawResult)) : String :=
+  match parseBuildConfigs stdin.toList with
+  | .error (ln, e) => s!"err {ln} {showErrKind e}"
+  | .ok cfgs =>
+    if cfgs.all (fun c => (tab.lookup (c.envs, c.flags)).isSome) then
+      let lintOf := fun envs flags => (tab.lookup (envs, flags)).getD ⟨[], []⟩
+      match matrixOutput reg lintOf stdin.toList with
+      | .ok out => showOut out
+      | .error (ln, e) => s!"err {ln} {showErrKind e}"
+    else "bad-op"
+
 def step (line : String) : String :=
   match tokens line with
   | "merge" :: n :: ts =>
     match parseNat n with
     | some n =>
       match parseRuns n ts with
-      | some (rs, []) =>
-        let out := output (rs.map runFromLintResult)
-        " ".intercalate (toString out.length :: out.map showEntry)
+      | some (rs, []) => showOut (output (rs.map runFromLintResult))
       | _ => "bad-op"
     | none => "bad-op"
+  | "pipe" :: ts =>
+    match parseReg ts with
+    | some (reg, n :: ts) =>
+      match parseNat n with
+      | some n =>
+        match parsePRuns n ts with
+        | some (ps, []) => showOut (output (ps.map (pRunToRun reg)))
+        | _ => "bad-op"
+      | none => "bad-op"
+    | _ => "bad-op"
+  | "binout" :: ts =>
+    match parseReg ts with
+    | some (reg, ts) =>
+      match parsePRun ts with
+      | some ((_, cwd, name, raw), []) => showLintResult (binOut cwd (lintRun reg name raw))
+      | _ => "bad-op"
+    | none => "bad-op"
+  | ["parsecfg", s] =>
+    match hexDecode s with
+    | some s =>
+      if !isAscii s then "outside" else
+      match parseBuildConfigs s.toList with
+      | .ok cfgs => " ".intercalate ("ok" :: toString cfgs.length :: cfgs.map showCfg)
+      | .error (ln, e) => s!"err {ln} {showErrKind e}"
+    | none => "bad-op"
+  | "matrix" :: ts =>
+    match parseReg ts with
+    | some (reg, s :: nt :: ts) =>
+      match hexDecode s, parseNat nt with
+      | some s, some nt =>
+        if !isAscii s then "outside" else
+        match parseTable nt ts with
+        | some (tab, []) => stepMatrix reg s tab
+        | _ => "bad-op"
+      | _, _ => "bad-op"
+    | _ => "bad-op"
   | _ => "bad-op"
 
 end Verif.C12
